@@ -26,6 +26,7 @@ from common import Infra
 logging.disable(logging.CRITICAL)
 
 LEAN_TARGETS = ["NfcVerif.Props.C15"]
+PARTS = ["drv"]   # props/c15_drv.py: the real driver classes on scripted transports under an owner-recording lock
 THEOREMS = ["NfcVerif.C15.lock_sound", "NfcVerif.C15.clf_wellLocked", "NfcVerif.C15.clf_facts",
             "NfcVerif.C15.clf_threads_never_overlap"]
 
